@@ -25,6 +25,11 @@
 (*                  second surrogate discount.                                          *)
 (*       explicit   1: the state list holds every state; 0: it is inferred (Reach), and  *)
 (*                  msdm drops the successors of absorbing states that are not listed    *)
+(*       chain      1: a long thin instance (6..15 states, undiscounted) on which the policy  *)
+(*                  is deterministic with one successor per state (corridors into a goal,   *)
+(*                  a costly pit or a free pit).  The 3x3 determinants do not reach that    *)
+(*                  far; oracle and machine use the closed forms of a functional graph      *)
+(*                  (sums along the path, exit states, cycles).                             *)
 (*       sibofs     1: the next record of the batch is the same MDP with another discount  *)
 (*                  (its "sibling").  The same policy object is then also evaluated on    *)
 (*                  the MDP as it is after its discount was changed to the sibling's      *)
@@ -159,10 +164,37 @@ OccOracle(m, ww) ==
         ELSE Norm(Safe(m.p0[t] * det) + Safe(m.GN * SumTo([i \in 1..k |-> Safe(xn[i] * PPi(m, ww, ts[i], t))], k)),
                   Safe(det * m.ID))]
 
+\* ---- chain instances: the policy's graph is functional (one successor per state)
+NextPi(m, ww, s) == CHOOSE t \in St(m) : PPi(m, ww, s, t) > 0
+RECURSIVE WalkSum(_, _, _, _, _)
+\* sum of the policy's expected rewards (numerators over PD*QD) from s until the walk leaves T
+WalkSum(m, ww, T, s, k) == IF s \notin T \/ k = 0 THEN 0
+                           ELSE RPi(m, ww, s) + WalkSum(m, ww, T, NextPi(m, ww, s), k - 1)
+RECURSIVE WalkSet(_, _, _, _, _)
+WalkSet(m, ww, T, s, k) == IF s \notin T \/ k = 0 THEN {} ELSE {s} \cup WalkSet(m, ww, T, NextPi(m, ww, s), k - 1)
+RECURSIVE WalkExit(_, _, _, _, _)
+WalkExit(m, ww, T, s, k) == IF s \notin T \/ k = 0 THEN s ELSE WalkExit(m, ww, T, NextPi(m, ww, s), k - 1)
+ChainValue(m, ww) ==
+  LET c == Classify(m, ww) IN
+  [s \in St(m) |-> IF s \in ExplAbs(m) \/ s \in c.zero THEN <<0, 1>>
+                    ELSE IF s \in c.ninf THEN NEG
+                    ELSE Norm(WalkSum(m, ww, c.trans, s, m.N), m.PD * QD)]
+ChainOcc(m, ww) ==
+  LET mm == TM(m)
+      c  == Classify(mm, ww)
+      T  == NonAbs(mm) \ c.rec
+      from0 == InitSupp(m) \cup UNION {ReachPi(mm, ww, s) : s \in InitSupp(m) \ ExplAbs(mm)}
+      mass(S) == SumSet([s \in St(m) |-> m.p0[s]], S)
+  IN [t \in St(m) |->
+        IF t \in c.rec THEN (IF t \in from0 THEN POS ELSE <<0, 1>>)
+        ELSE IF t \in T THEN Norm(mass({s \in InitSupp(m) \cap T : t \in WalkSet(m, ww, T, s, m.N)}), m.ID)
+        ELSE Norm(m.p0[t] + mass({s \in InitSupp(m) \cap T : WalkExit(m, ww, T, s, m.N) = t}), m.ID)]
+ChainOK(m, ww) == /\ ~Discounted(m)
+                  /\ \A s \in NonAbs(m) : \E t \in St(m) : PPi(m, ww, s, t) = m.PD * QD
 Oracle(m, ww) ==
-  LET v == TLCEval(PolicyValue(m, ww, QD))
+  LET v == TLCEval(IF m.chain = 1 THEN ChainValue(m, ww) ELSE PolicyValue(m, ww, QD))
       q == TLCEval([s \in St(m) |-> [a \in Ac(m) |-> IF s \in ExplAbs(m) THEN UNAV ELSE QFromV(m, v, s, a)]])
-      o == TLCEval(OccOracle(m, ww))
+      o == TLCEval(IF m.chain = 1 THEN ChainOcc(m, ww) ELSE OccOracle(m, ww))
   IN [v |-> v, q |-> q, occ |-> o, init |-> InitialValue(m, v)]
 
 \* ------------------------------------------------------------------ (R) pieces of the reference machine
@@ -197,7 +229,16 @@ ClassesOf(m, x, r, ac) ==
       initrec |-> {j \in rec : \E i \in InitSupp(m) : j \in ac[i]}]
 
 \* inverse of (I - gamma X) where the rows of X outside U are zero: block form, adjugate of the U x U block
+\* chain instances: x has one positive entry per row of U and no cycle inside U
+RECURSIVE XWalk(_, _, _, _, _)
+XWalk(x, N, U, s, k) == IF s \notin U \/ k = 0 THEN <<s>>
+                        ELSE <<s>> \o XWalk(x, N, U, CHOOSE t \in 1..N : x[s][t] > 0, k - 1)
+ChainInverse(m, x, U) ==
+  TLCEval([i \in St(m) |->
+     LET wk == XWalk(x, m.N, U, i, m.N) IN      \* the states visited from i; the last one is outside U
+     [j \in St(m) |-> IF \E l \in 1..Len(wk) : wk[l] = j THEN <<1, 1>> ELSE <<0, 1>>]])
 Inverse(m, x, U) ==
+  IF m.chain = 1 THEN ChainInverse(m, x, U) ELSE
   LET N   == m.N
       us  == SeqOfSet(U, N)
       k   == Len(us)
@@ -384,7 +425,14 @@ Bellman ==
 
 \* (P3) the statement's characterisation of the -infinity set, transcribed with explicit classes:
 \*      closed communicating classes of the policy's chain among the non-absorbing states
-ClosedClasses(m, ww) ==
+\* the same classes without enumerating subsets (used on the long chain instances): the strongly
+\* connected component of every state that returns to itself, if it is closed
+CycleClasses(m, ww) ==
+  LET mm == TM(m)
+      na == St(m) \ AbsAll(m)
+  IN {C \in {{s} \cup {t \in ReachPi(mm, ww, s) : s \in ReachPi(mm, ww, t)} : s \in {x \in na : x \in ReachPi(mm, ww, x)}} :
+        C \subseteq na /\ \A c \in C : SuccPi(m, ww, c) \subseteq C}
+ClosedClasses(m, ww) == IF m.chain = 1 THEN CycleClasses(m, ww) ELSE
   LET mm == TM(m) IN
   {C \in SUBSET (St(m) \ AbsAll(m)) :
       /\ C # {}
@@ -436,6 +484,7 @@ InstanceOK == phase = "init" =>
   /\ FlagsOK(M, w, tn)
   /\ M.near1 = 1 => (Discounted(M) /\ Discounted(AltM(M)))
   /\ M.hist = 1 => M.explicit = 1
+  /\ M.chain = 1 => (ChainOK(M, w) /\ M.near1 = 0 /\ M.sibofs = 0 /\ RareStates(M, tn) = {})
   /\ M.sibofs = 1 => /\ iid < Len(Batch) /\ M.near1 = 0 /\ Sib.sibofs = 0
                       /\ Sib.N = M.N /\ Sib.K = M.K /\ Sib.PD = M.PD /\ Sib.ID = M.ID /\ Sib.explicit = M.explicit
                       /\ Sib.abs = M.abs /\ Sib.avail = M.avail /\ Sib.P = M.P /\ Sib.R = M.R /\ Sib.p0 = M.p0
